@@ -83,3 +83,28 @@ pub(crate) fn any_revision(lo: usize, hi: usize) -> crate::Revision {
 /// Upper bound used for symbolic revisions: relative order is what the kernels depend on;
 /// the bound keeps `Revision::next` away from its overflow panic.
 pub(crate) const REV_MAX: usize = 1 << 40;
+
+/// Stub for `alloc::fmt::format`: formatting panic messages is not the subject of any harness.
+pub(crate) fn stub_format(_: std::fmt::Arguments<'_>) -> String {
+    String::new()
+}
+
+/// A `RawDatabase` that points nowhere, for ingredient entry points that ignore their `db`
+/// argument (verification only; `RawDatabase` is `repr(transparent)` over `NonNull<()>`).
+pub(crate) fn dangling_raw_db() -> crate::database::RawDatabase<'static> {
+    // SAFETY: verification-only fabrication; never dereferenced by the code under test.
+    unsafe {
+        std::mem::transmute::<std::ptr::NonNull<()>, crate::database::RawDatabase<'static>>(
+            std::ptr::NonNull::dangling(),
+        )
+    }
+}
+
+/// Alias + stub for `std::panic::resume_unwind` (used by `Cancelled::throw`): the real one ends in
+/// the foreign `__rust_start_panic`, which Kani does not support. It never returns; under Kani's
+/// `panic=abort` a plain panic is the same event.
+pub(crate) use std::panic::resume_unwind as real_resume_unwind;
+
+pub(crate) fn stub_resume_unwind(_payload: Box<dyn std::any::Any + Send>) -> ! {
+    panic!("resume_unwind (salsa cancellation or propagated panic)")
+}
